@@ -271,7 +271,8 @@ func (s *scenario) run(op string, reps int, allowReorg bool) {
 				// every height below the reported count must be served
 				h := cnt - 1
 				r2 := servers.GetBlockByHeight(servers.Params{"height": float64(h)})
-				if !rpcOK(r2) {
+				// (during a reorg the chain legitimately gets shorter between the two calls)
+				if !rpcOK(r2) && !allowReorg {
 					s.fail("C40:query:getblockbyheight:missing-below-count", fmt.Sprintf("height %d count %d: %v", h, cnt, r2["Result"]))
 				}
 				_ = servers.GetBestBlockHash(servers.Params{})
